@@ -120,12 +120,28 @@ impl Block for SymbolSync {
         if o.is_empty() {
             return Ok(BlockRet::WaitForStream(&self.dst, 1));
         }
-        // TODO: get rid of unwrap.
-        let mut out_clock = self.out_clock.as_mut().map(|x| x.write_buf().unwrap());
+        let mut out_clock = match self.out_clock.as_ref().map(|x| x.write_buf()) {
+            None => None,
+            Some(Ok(x)) => Some(x),
+            Some(Err(e)) => return Err(e),
+        };
+        // The clock output gets one sample per symbol too: both need room.
+        if let Some(ref c) = out_clock {
+            if c.is_empty() {
+                drop(out_clock);
+                return Ok(BlockRet::WaitForStream(
+                    self.out_clock.as_ref().expect("checked above"),
+                    1,
+                ));
+            }
+        }
 
         let mut n = 0; // Samples consumed.
         let mut opos = 0; // Current output position.
-        let olen = o.len();
+        let olen = match out_clock {
+            Some(ref c) => std::cmp::min(o.len(), c.len()),
+            None => o.len(),
+        };
         let oslice = o.slice();
         let mut full = false;
         for sample in input.iter() {
